@@ -53,6 +53,8 @@ def run(chk):
     r3_metadata_copy(chk, repo)
     r4_slices(chk, repo)
     r5_record_links(chk, repo)
+    r6_per_hit_state(chk, repo)
+    r7_stale_locals(chk, repo, "C18.R7", [PULSE, RED])
 
 
 def record_vars(f):
@@ -345,8 +347,71 @@ def r5_record_links(chk, repo):
                 okv = isinstance(v, ast.BinOp) and isinstance(v.op, ast.Add) and any(norm(x) == f"{REC}['time']" for x in (v.left, v.right)) and any(isinstance(x, ast.BinOp) and isinstance(x.op, ast.Mult) and f"{REC}['dt']" in (norm(x.left), norm(x.right)) for x in (v.left, v.right))
                 chk.check(okv, R, f, u, "the expected start of the next fragment is not time + samples_per_record * dt", site_text="record_links: expected next start = time + n_samples * dt")
 
+# ------------------------------------------------------------------------------------ R6
+def r6_per_hit_state(chk, repo):
+    chk.describe("C18.R6", "what the hit finder accumulates for a hit (area, height) is reset on every path from storing that hit to the start of the next one")
+    R = "C18.R6"
+    f = repo.func("_find_hits", PULSE)
+    cfg = cfg_of(f)
+    stores = [n for n in cfg.stmt_nodes() if isinstance(n.stmt, ast.Assign) and isinstance(n.stmt.targets[0], ast.Subscript) and isinstance(n.stmt.targets[0].slice, ast.Constant) and n.stmt.targets[0].slice.value in ("area", "height")]
+    chk.check(len(stores) == 2, R, f, None, "the hit finder no longer stores area and height of a hit at one place each", site_text="_find_hits: res[area], res[height] stored")
+    accs = set()
+    for n in stores:
+        for x in ast.walk(n.stmt.value):
+            if isinstance(x, ast.Name) and any(isinstance(st, ast.AugAssign) and norm(st.target) == x.id or (isinstance(st, ast.Assign) and norm(st.targets[0]) == x.id and isinstance(st.value, ast.Call) and call_name(st.value) == "max") for st in walk_body(f.node)):
+                accs.add(x.id)
+    chk.check(accs >= {"area", "height"} or len(accs) >= 2, R, f, None, f"per-hit accumulators not recognised ({sorted(accs)})", site_text="_find_hits: accumulators of a hit", nontrivial=False)
+    starts = [n for n in cfg.stmt_nodes() if isinstance(n.stmt, ast.Assign) and isinstance(n.stmt.targets[0], ast.Name) and isinstance(n.stmt.value, ast.Name) and enclosing(n.stmt, (ast.If,)) is not None and any(isinstance(st, ast.Assign) and isinstance(st.targets[0], ast.Subscript) and isinstance(st.targets[0].slice, ast.Constant) and st.targets[0].slice.value == "left" and norm(st.value) == n.stmt.targets[0].id for st in walk_body(f.node))]
+    chk.check(len(starts) >= 1, R, f, None, "start of a hit (`hit_start = i`) not found", site_text="_find_hits: hit start")
+    last_store = max(stores, key=lambda n: n.stmt.lineno) if stores else None
+    for a in sorted(accs):
+        resets = [n for n in cfg.stmt_nodes() if isinstance(n.stmt, ast.Assign) and any(isinstance(t, ast.Name) and t.id == a for t in n.stmt.targets) and isinstance(n.stmt.value, ast.Constant) and n.stmt.value.value == 0]
+        ok = bool(resets) and last_store is not None and bool(starts) and cfg.every_path([last_store], starts, lambda n: n in resets, "n")[0]
+        chk.check(ok, R, f, last_store.stmt if last_store else None, f"`{a}` is not reset on every path from a stored hit to the start of the next hit: a later hit in the same record inherits it (height / max_time of an earlier, higher hit)", site_text=f"_find_hits: {a} reset between hits", site={"function": f.qualname, "accumulator": a})
+
+
+# ------------------------------------------------------------------------------------ R7
+STALE_OK_FIELDS = {
+    ("_find_hits", "max_time"): "set when the first sample of a hit is seen; read only when a hit is stored (same in_interval episode)",
+    ("_find_hits", "right"): "the hit end is set in the branch that ends the hit; read only under `not in_interval` right after it",
+}
+
+
+def _stale_ok(f):
+    """Reviewed exceptions, identified by the result field the local is stored into (not by name)."""
+    out = {}
+    for st in walk_body(f.node):
+        if isinstance(st, ast.Assign) and isinstance(st.targets[0], ast.Subscript) and isinstance(st.targets[0].slice, ast.Constant) and isinstance(st.value, ast.Name):
+            key = (f.qualname, st.targets[0].slice.value)
+            if key in STALE_OK_FIELDS:
+                out[st.value.id] = STALE_OK_FIELDS[key]
+    return out
+
+
+def r7_stale_locals(chk, repo, rule, paths):
+    from ..rules import stale_loop_locals
+    chk.describe(rule, "no kernel reads a loop-local that was not bound in the current iteration of its row loop (the value would come from an earlier row, possibly of another channel)")
+    n = 0
+    for f in repo.functions:
+        if f.path not in paths or f.parent_func is not None:
+            continue
+        for lp in [x for x in f.node.body if isinstance(x, (ast.For, ast.While))]:
+            n += 1
+            okd = _stale_ok(f)
+            for nm, st in stale_loop_locals(f, lp):
+                if nm in okd:
+                    chk.ok(rule, f"{f.qualname}: the local stored as a reviewed field: {okd[nm]}", nontrivial=False)
+                    continue
+                chk.fail(rule, f, st, f"`{nm}` is only bound inside the loop and can be read before it is bound in the current iteration: the value of an earlier row (e.g. of another channel) is used", site={"function": f.qualname, "local": nm})
+            chk.ok(rule, f"{f.qualname}: row loop at line {lp.lineno} reads no stale loop-local")
+    chk.floor(rule, "row loops inspected", n, 3)
+
 
 WITNESSES = [
+    W("height of an earlier hit leaks into the next one", "C18.R6", PULSE,
+      "res[\"max_time\"] = max_time\n                    area = height = 0", "res[\"max_time\"] = max_time\n                    area = 0"),
+    W("baseline rms carried over from the previous record", "C18.R7", PULSE,
+      "last_bl_in[d[\"channel\"]] = bl, rms = w.mean(), w.std()\n        else:\n            bl, rms = last_bl_in[d[\"channel\"]]", "last_bl_in[d[\"channel\"]] = bl, rms = w.mean(), w.std()\n        else:\n            bl = last_bl_in[d[\"channel\"]][0]"),
     W("whole previous fragment kept when the extension ends on the boundary", "C18.R4", RED,
       "if start_keep < 0:\n            prev_ri", "if start_keep <= 0:\n            prev_ri"),
     W("next-fragment guard dropped", "C18.R4", RED,
